@@ -124,7 +124,7 @@ pub fn hash_id(kind: HK, v: &[u8]) -> Option<u32> {
 }
 fn rawpkh_table() -> &'static Vec<(u32, hash160::Hash)> {
     static T: std::sync::OnceLock<Vec<(u32, hash160::Hash)>> = std::sync::OnceLock::new();
-    T.get_or_init(|| (0..10).chain(200..210).map(|id| (id, ast::raw_pkh(id))).collect())
+    T.get_or_init(|| (0..10).chain(100..104).chain(200..210).map(|id| (id, ast::raw_pkh(id))).collect())
 }
 pub fn rawpkh_id(h: &hash160::Hash) -> Option<u32> {
     rawpkh_table().iter().find(|(_, x)| x == h).map(|(i, _)| *i)
